@@ -34,6 +34,7 @@ func runMutations(r *engine.Run) {
 			}
 		}
 	}
+	base = append(base, manyGroupBases...)
 	muts := MutatedPatterns(base)
 	for i, p := range muts {
 		e.checkPattern(r, p, flags)
